@@ -1,8 +1,12 @@
 #!/bin/bash
-# copies finished sub-agent outputs /tmp/seed/Cnn/OUT/{A,B} into /verif/seeded/Cnn-{A,B} and verifies new ones
-for d in /tmp/seed/C*/OUT/*; do
+# copies finished sub-agent outputs <base>/Cnn/OUT/{A,B} into /verif/seeded/Cnn-{A,B} (round 1, base /tmp/seed)
+# or Cnn-{C,D} (round 2, base /tmp/seed2) and verifies new ones.  usage: collect_seeds.sh [/tmp/seed|/tmp/seed2]
+BASE=${1:-/tmp/seed}
+for d in $BASE/C*/OUT/*; do
   [ -f $d/patch.diff ] || continue
-  id=$(echo $d | sed -E 's#/tmp/seed/(C[0-9]+)/OUT/(.*)#\1-\2#')
+  c=$(echo $d | sed -E "s#$BASE/(C[0-9]+)/OUT/(.*)#\1#"); v=$(basename $d)
+  if [ "$BASE" = /tmp/seed2 ]; then v=$(echo $v | tr AB CD); fi
+  id=$c-$v
   if [ ! -f /verif/seeded/$id/verified.txt ]; then
     mkdir -p /verif/seeded/$id; cp $d/* /verif/seeded/$id/
     echo "== $id"; /verif/tools/verify_seed.sh /verif/seeded/$id 2>&1 | tail -1
